@@ -509,7 +509,7 @@ pub fn run(ctx: &Ctx, rep: &Report) -> Meta {
                point/proof of different runs, proof for other messages, other suite, whole-scalar removal / duplication / insertion / truncation / extension at every position -> blind_sign must return Err; \
                group 2: single edits of committed messages, signer messages, boundary moves, blinding factor (other, None, one bit), header, pk, suite -> verify_blind_sign Err; \
                group 3: single edits of disclosed data of either kind, index moves, L-1 / L+1 / None / L+M+1, header, ph, pk, proof bit flips, plain verifier, other suite -> blind_proof_verify Err; \
-               a panic counts as not accepted here and is reported under C08; non-trivial = honest run with M >= 1 and all three groups executed"
+               size sweep over every M in 4..=40 (quick) / 4..=130 (thorough) and 63..65, the sweep cases under contention, the point at infinity as commitment with made-up or honest response scalars, the just-accepted octets replayed to the other suite, a refused commitment presented again; a panic counts as not accepted here and is reported under C08; non-trivial = honest run with M >= 1 and all three groups executed"
             .into(),
         assumptions: vec!["accidental acceptance would need a hash collision or a discrete-log relation between generators".into()],
     }
